@@ -90,6 +90,16 @@ pub fn atoms() -> Vec<Expr> {
     // value forms of literals
     v.push(Expr::cmp(f("s"), CmpOp::Eq, Rhs::Lit(Lit::Bytes(b"a\xffb".to_vec(), BytesForm::Quoted))));
     v.push(Expr::cmp(f("s"), CmpOp::Ne, Rhs::Lit(Lit::Bytes(b"ab".to_vec(), BytesForm::Hex('-')))));
+    // literals that are valid UTF-8 without being ASCII (escaped and typed directly)
+    v.push(Expr::cmp(f("s"), CmpOp::Eq, Rhs::Lit(Lit::Bytes("\u{e9}".as_bytes().to_vec(), BytesForm::Quoted))));
+    v.push(Expr::cmp(f("s"), CmpOp::Contains, Rhs::Lit(Lit::Bytes("a\u{e9}\u{1f622}".as_bytes().to_vec(), BytesForm::Raw(0)))));
+    v.push(Expr::cmp(f("s"), CmpOp::Wildcard, Rhs::Lit(Lit::Bytes("\u{e9}*".as_bytes().to_vec(), BytesForm::Raw(1)))));
+    v.push(Expr::cmp(
+        f("s"),
+        CmpOp::In,
+        Rhs::BytesSet(vec![("\u{e9}".as_bytes().to_vec(), BytesForm::Raw(0)), (b"\xc3\xa9".to_vec(), BytesForm::Hex(':')), (b"\xc3".to_vec(), BytesForm::Quoted)]),
+    ));
+    v.push(Expr::cmp(Lhs::call("concat", vec![a(f("s")), Arg::Lit(Lit::Bytes("\u{e9}".as_bytes().to_vec(), BytesForm::Quoted))]), CmpOp::Ne, strs(b"a")));
     v.push(Expr::cmp(f("i"), CmpOp::Ge, Rhs::Lit(Lit::Int(i64::MIN, IntForm::Dec))));
     v.push(Expr::cmp(f("i"), CmpOp::Le, Rhs::Lit(Lit::Int(0o777, IntForm::Oct))));
     v.push(Expr::cmp(f("ip"), CmpOp::Lt, Rhs::Lit(Lit::Ip("::ffff:1.2.3.4".parse().unwrap()))));
